@@ -50,7 +50,15 @@ def cell_for(sg, rng):
     A = lambda lo, hi: round(rng.uniform(lo, hi), rng.choice([1, 2, 3]))
     sys = sg.crystal_system
     deg = math.radians
+    # nearly (but clearly not) equal parameters: distinct at the 6 decimals the formats carry, well above the 1e-6 at which
+    # UnitCell.parameters deliberately identifies them
+    near = rng.random() < 0.35
+    dl = rng.choice([3e-6, 2e-5, 4e-5, 2e-4])
+    da = rng.choice([3e-5, 3e-4, 8e-4])
     if sys == "triclinic":
+        a, al = L(), A(80, 100)
+        if near:
+            return UnitCell.from_lengths_and_angles([a, a + dl, L()], [al, al + da, A(70, 100)], unit="degrees")
         return UnitCell.from_lengths_and_angles([L(), L(), L()], [A(75, 105), A(80, 110), A(70, 100)], unit="degrees")
     if sys == "monoclinic":
         ch = sg.choice or "b"
@@ -59,10 +67,12 @@ def cell_for(sg, rng):
         for k, l in enumerate("abc"):
             if l in ch.replace("-", "")[:1]:
                 ax = k
-        angs[ax] = A(95, 125)
-        return UnitCell.from_lengths_and_angles([L(), L(), L()], angs, unit="degrees")
+        angs[ax] = A(95, 125) if not near else 90.0 + da
+        a = L()
+        return UnitCell.from_lengths_and_angles([a, a + dl if near else L(), L()], angs, unit="degrees")
     if sys == "orthorhombic":
-        return UnitCell.from_lengths_and_angles([L(), L(), L()], [90.0, 90.0, 90.0], unit="degrees")
+        a = L()
+        return UnitCell.from_lengths_and_angles([a, a + dl if near else L(), L()], [90.0, 90.0, 90.0], unit="degrees")
     if sys == "tetragonal":
         a = L()
         return UnitCell.from_lengths_and_angles([a, a, L()], [90.0, 90.0, 90.0], unit="degrees")
